@@ -571,6 +571,8 @@ func redactQueryValues(obj *orderedmap.OrderedMap[string, any], redactFieldNames
 						newObj.Set(redactedKey, v)
 					}
 				}
+			} else {
+				newObj.Set(redactedKey, nil)
 			}
 		}
 	}
@@ -705,6 +707,8 @@ func redactScalarValue(keyPath []string, v interface{}, isSearchStage bool, isSe
 			return RedactedBoolean
 		}
 		return v
+	case nil:
+		return nil
 	default:
 		return redactedString
 	}
